@@ -13,6 +13,7 @@ import (
 	"github.com/idena-network/idena-go/blockchain/attachments"
 	"github.com/idena-network/idena-go/blockchain/fee"
 	"github.com/idena-network/idena-go/blockchain/types"
+	"github.com/idena-network/idena-go/blockchain/validation"
 	"github.com/idena-network/idena-go/common"
 	"github.com/idena-network/idena-go/crypto"
 	"github.com/idena-network/idena-go/vm/embedded"
@@ -39,6 +40,9 @@ type ContractInfo struct {
 	Voting   *ContractInfo
 	deadline int64       // rlock: deposit deadline (unix)
 	deployTx common.Hash // wasm: the address is taken from the receipt
+	// Kind "wasm-poor": an account outside the world that owns just what its prepared low-max-fee wasm transaction may cost
+	tx   *types.Transaction
+	need *big.Int
 }
 
 type voteRec struct {
@@ -673,7 +677,11 @@ func (h *History) advanceVotings(b int) {
 func (h *History) wasmAction(b int) {
 	n, r, w := h.N, h.R, h.W
 	fpg := n.App.State.FeePerGas()
-	if common.ZeroOrNil(fpg) || !n.Cfg.Consensus.EnableUpgrade11 || len(w.Keys) < 3 || r.Intn(2) != 0 {
+	if common.ZeroOrNil(fpg) || !n.Cfg.Consensus.EnableUpgrade11 || len(w.Keys) < 3 {
+		return
+	}
+	h.wasmTightFee(b)
+	if r.Intn(2) != 0 {
 		return
 	}
 	nU := len(w.Keys) - 1
@@ -760,5 +768,104 @@ func (h *History) wasmAction(b int) {
 	tx := &types.Transaction{Type: types.CallContractTx, To: &x, Amount: amt, Payload: p, MaxFee: new(big.Int).Set(budget)}
 	if h.try(i, fmt.Sprint("call-wasm", b, x.Hex()), tx) != nil {
 		h.Stats["contract:"+c.Kind+"."+method]++
+	}
+}
+
+// wasmTightFee: wasm deployments of garbage / truncated code and wasm calls whose max fee buys fewer gas units than the wasm
+// binding's flat base charges (30 000 per deployment, 1 000 per call; around those boundaries ±1), sent by accounts outside
+// the world that own exactly (or one unit more than) max fee + amount: the charged fee must stay within the max fee, the
+// account must not be overdrawn.  The account is funded by an ordinary send first, the prepared transaction follows when the
+// funds have arrived.
+func (h *History) wasmTightFee(b int) {
+	n, r, w := h.N, h.R, h.W
+	fpg := n.App.State.FeePerGas()
+	ep := n.App.State.Epoch()
+	npoor := 0
+	for _, c := range h.Contracts {
+		if c.Kind != "wasm-poor" {
+			continue
+		}
+		npoor++
+		if c.tx == nil {
+			continue
+		}
+		if c.tx.Epoch != ep {
+			c.tx = nil // prepared for an epoch that is over
+			continue
+		}
+		if n.App.State.GetBalance(c.Addr).Cmp(c.need) >= 0 {
+			if err := n.Pool.AddExternalTxs(validation.InboundTx, c.tx); err == nil {
+				h.Stats["contract:wasm-tight-fee:offered:"+c.pendName]++
+			} else {
+				h.Stats["contract:wasm-tight-fee:refused-by-pool"]++
+			}
+			c.tx = nil
+		}
+	}
+	if r.Intn(4) != 0 || npoor >= 40 {
+		return
+	}
+	key := DetKey(w.Seed, 5000+npoor)
+	addr := crypto.PubkeyToAddress(key.PublicKey)
+	tx := &types.Transaction{AccountNonce: 1, Epoch: ep}
+	var gasOnTop int64
+	var name string
+	var target *ContractInfo
+	for _, c := range h.Contracts {
+		if (c.Kind == "wasm-inc" || c.Kind == "wasm-sum") && c.Addr != (common.Address{}) && c.Live(n) {
+			target = c
+		}
+	}
+	if target != nil && r.Intn(2) == 0 {
+		method, args := "inc", [][]byte{u64b(uint64(r.Intn(100)))}
+		if target.Kind == "wasm-sum" {
+			method, args = "invoke", [][]byte{u64b(1), u64b(2)}
+		}
+		p, _ := attachments.CreateCallContractAttachment(method, args...).ToBytes()
+		x := target.Addr
+		tx.Type, tx.To, tx.Payload = types.CallContractTx, &x, p
+		gasOnTop = []int64{0, 1, 500, 999, 1000, 1001, 5000}[r.Intn(7)]
+		name = fmt.Sprint("call:", gasOnTop)
+	} else {
+		code := []byte{byte(r.Intn(256)), byte(r.Intn(256)), byte(r.Intn(256))}
+		switch r.Intn(4) {
+		case 0:
+			code = nil
+			full, _ := testdata.IncFunc()
+			code = append(code, full[:len(full)/2]...) // a truncated module
+		case 1:
+			code, _ = testdata.IncFunc() // a valid module that cannot be paid for
+		}
+		p, _ := attachments.CreateDeployContractAttachment(common.Hash{}, code, []byte{byte(b), byte(npoor)}).ToBytes()
+		tx.Type, tx.Payload = types.DeployContractTx, p
+		gasOnTop = []int64{0, 100, 1000, 29999, 30000, 30001, 60000}[r.Intn(7)]
+		name = fmt.Sprint("deploy:", len(code), "B:", gasOnTop)
+	}
+	if r.Intn(3) == 0 {
+		tx.Amount = Dna(int64(1 + r.Intn(3)))
+	}
+	tx.MaxFee = Dna(1)
+	var stx *types.Transaction
+	for it := 0; it < 4; it++ {
+		cp := *tx
+		var err error
+		if stx, err = types.SignTx(&cp, key); err != nil {
+			return
+		}
+		tx.MaxFee = new(big.Int).Add(fee.CalculateFee(n.App.ValidatorsCache.NetworkSize(), fpg, stx), new(big.Int).Mul(fpg, big.NewInt(gasOnTop)))
+	}
+	cp := *tx
+	stx, _ = types.SignTx(&cp, key)
+	need := new(big.Int).Add(stx.MaxFee, stx.AmountOrZero())
+	if r.Intn(3) == 0 {
+		need.Add(need, big.NewInt(1))
+	}
+	i := 1 + r.Intn(len(w.Keys)-1)
+	if n.App.State.GetBalance(w.Addrs[i]).Cmp(new(big.Int).Add(need, Dna(1000))) < 0 {
+		return
+	}
+	if h.try(i, fmt.Sprint("fund-poor", b), &types.Transaction{Type: types.SendTx, To: &addr, Amount: need}) != nil {
+		h.Contracts = append(h.Contracts, &ContractInfo{Addr: addr, Kind: "wasm-poor", tx: stx, need: need, pendName: name})
+		h.Stats["contract:wasm-tight-fee:funded"]++
 	}
 }
